@@ -148,19 +148,23 @@ example : QS.SWO (fun x y => decide (x / 3 < y / 3)) :=
   ⟨by intro x; simp, by intro x y z h1 h2; simp at *; omega, by intro x y z h1 h2; simp at *; omega⟩
 
 /-- Whenever `parallel_sort` takes the parallel path the array is long enough for the serial probe (which reads
-elements `0 … serial_cutoff`) and for the first pretest index. -/
+elements up to index `probeEnd`, the loop's final `k`) and for the first pretest index. -/
 theorem sort_probe_in_bounds (n : Nat) (h : QS.serialPath n = false) :
-    Generated.C06.serialCutoff < n ∧ QS.pretestBegin ≤ n := by
+    Generated.C06.probeEnd - 1 + max Generated.C06.probeArg1 Generated.C06.probeArg2 < n ∧ QS.pretestBegin ≤ n := by
   have h' : ¬ n < Generated.C06.minParallelSize := by simpa [QS.serialPath] using h
-  simp only [QS.pretestBegin, Generated.C06.minParallelSize, Generated.C06.serialCutoff,
-    Generated.C06.pretestStartOffset] at *
+  simp only [QS.pretestBegin, Generated.C06.minParallelSize, Generated.C06.probeEnd, Generated.C06.probeArg1,
+    Generated.C06.probeArg2, Generated.C06.pretestBegin] at *
   omega
 
-/-- **The pretest covers every adjacent pair.** If the serial probe over pairs `(0,1) … (8,9)` found no
-inversion, the chunks handed to `quick_sort_pretest_body` tile `[10, n)`, all chunk bodies have returned
-(under any interleaving of their iterations) and the context is not cancelled, then no adjacent pair of
-the array is inverted — hence, for a strict weak order, the array is already sorted and returning without
-sorting is correct. -/
+/-- **The pretest covers every adjacent pair.** The serial probe and the pretest body are modelled with the
+loop start, loop bound and ARGUMENT ORDER of their `comp(…)` calls as GENERATED from the source text on every run
+(`probeStart`, `probeEnd`, `probeArg1/2`, `pretestArg1/2`, `pretestBegin`).  If the serial probe
+(`comp(*(k+1), *k)` for `k = 0 … 8`) did not fire, the chunks handed to `quick_sort_pretest_body` tile
+`[pretestBegin, n)`, all chunk bodies have returned (under any interleaving of their iterations) and the context
+is not cancelled, then no adjacent pair of the array is inverted — hence, for a strict weak order, the array is
+already sorted and returning without sorting is correct.  (With the probe's arguments swapped, a shorter probe
+that is not matched by an earlier pretest start, or a probe that starts after `begin`, this proof does not go
+through: the conclusion is then false, e.g. for `1,…,1,0,0,…` with the step inside the first ten elements.) -/
 theorem pretest_covers_every_adjacent_pair (lt : QS.Cmp) (a : Array Nat) (chunks : List (Nat × Nat))
     (sched : List Nat) (htile : QS.tiles QS.pretestBegin chunks a.size)
     (hprobe : QS.serialProbe lt a = false)
@@ -171,14 +175,16 @@ theorem pretest_covers_every_adjacent_pair (lt : QS.Cmp) (a : Array Nat) (chunks
   have hinv := QS.pinv_run lt a chunks sched
   have hadj : ∀ i, i + 1 < a.size → lt (QS.el a (i + 1)) (QS.el a i) = false := by
     intro i hi
-    by_cases hsmall : i < Generated.C06.serialCutoff
-    · -- covered by the serial probe
+    by_cases hsmall : i < Generated.C06.probeEnd
+    · -- covered by the serial probe (generated loop range and argument order)
       simp only [QS.serialProbe, List.any_eq_false] at hprobe
-      have := hprobe i (by simpa using hsmall)
-      simpa using this
+      have := hprobe i (by
+        simp only [List.mem_range'_1, Generated.C06.probeStart, Generated.C06.probeEnd] at hsmall ⊢
+        omega)
+      simpa [Generated.C06.probeArg1, Generated.C06.probeArg2] using this
     · -- covered by the chunk that contains index i+1
       have hk : QS.pretestBegin ≤ i + 1 := by
-        simp only [QS.pretestBegin, Generated.C06.serialCutoff, Generated.C06.pretestStartOffset] at *
+        simp only [QS.pretestBegin, Generated.C06.probeEnd, Generated.C06.pretestBegin] at *
         omega
       obtain ⟨r, r1, r2, r3⟩ := QS.tiles_cover chunks _ _ htile (i + 1) hk hi
       rw [← hinv.bounds] at r1
@@ -191,7 +197,7 @@ theorem pretest_covers_every_adjacent_pair (lt : QS.Cmp) (a : Array Nat) (chunks
       rw [hlive] at hd
       simp at hd
       have := hok.2 (i + 1) (by rw [← c2] at r2; exact r2) (by rw [← c2] at r3; simp at r3; omega)
-      simpa using this
+      simpa [Generated.C06.pretestArg1, Generated.C06.pretestArg2] using this
   refine ⟨hadj, ?_⟩
   intro hs
   apply QS.sorted_of_adjacent lt hs
@@ -201,29 +207,48 @@ theorem pretest_covers_every_adjacent_pair (lt : QS.Cmp) (a : Array Nat) (chunks
   rw [QS.el_toList hi, QS.el_toList (by omega)]
   exact this
 
-/-! Non-vacuity: 12 sorted elements, two chunks `[10,11)`, `[11,12)` run interleaved. -/
+/-! Non-vacuity: 12 sorted elements, two chunks `[pretestBegin,11)`, `[11,12)` run interleaved (stated with the generated
+`pretestBegin`, so that a consistent change of `serial_cutoff` — the probe ends earlier, the pretest starts earlier — is
+accepted, as it should be: it does not change which pairs are covered). -/
 example :
     let a : Array Nat := #[1, 2, 3, 4, 5, 6, 7, 8, 9, 10, 11, 12]
     let lt : QS.Cmp := fun x y => decide (x < y)
-    let s := QS.pretestRun lt a [(10, 11), (11, 12)] [1, 0, 1, 0]
-    QS.tiles QS.pretestBegin [(10, 11), (11, 12)] a.size ∧ QS.serialProbe lt a = false ∧
+    let s := QS.pretestRun lt a [(QS.pretestBegin, 11), (11, 12)] [1, 0, 1, 0, 0, 0]
+    QS.tiles QS.pretestBegin [(QS.pretestBegin, 11), (11, 12)] a.size ∧ QS.serialProbe lt a = false ∧
     QS.pretestDone s = true ∧ s.cancelled = false := by decide
 
-/-! … and an inversion at the seam between the serial probe and the parallel pretest, pair (9,10), cancels. -/
+/-! … an inversion at pair (9,10) — with `serial_cutoff = 9` the seam between the serial probe and the parallel
+pretest — cancels; and the inputs that a probe with swapped arguments would let through (all keys equal except a
+smaller one at position 9; a step down inside the first ten) make the real probe fire. -/
 example :
     let a : Array Nat := #[1, 2, 3, 4, 5, 6, 7, 8, 9, 11, 10, 12]
     let lt : QS.Cmp := fun x y => decide (x < y)
-    QS.serialProbe lt a = false ∧ (QS.pretestRun lt a [(10, 12)] [0, 0]).cancelled = true := by decide
+    QS.serialProbe lt a = false ∧ (QS.pretestRun lt a [(QS.pretestBegin, 12)] [0, 0, 0]).cancelled = true := by decide
+
+example :
+    let lt : QS.Cmp := fun x y => decide (x < y)
+    (QS.serialProbe lt #[5, 5, 5, 5, 5, 5, 5, 5, 5, 4, 5, 5] = true ∨
+      (QS.pretestRun lt #[5, 5, 5, 5, 5, 5, 5, 5, 5, 4, 5, 5] [(QS.pretestBegin, 12)] [0, 0, 0]).cancelled = true) ∧
+    QS.serialProbe lt #[1, 1, 1, 0, 0, 0, 0, 0, 0, 0, 0, 0] = true ∧
+    QS.probeTrace lt #[1, 1, 1, 0, 0, 0, 0, 0, 0, 0, 0, 0] = [(1, 0), (2, 1), (3, 2)] := by decide
 
 /-! ## parallel_scan -/
 
 /-- **Scan: one final pass per element, with the right prefix, for EVERY oracle.**  For every grain ≥ 1, every
-range, every steal oracle (which right children `is_stolen(ed)` reports as stolen — virtual steals are computed
-by the model as the code does, from `&m_body != m_parent->m_result.m_left_sum`) and every
-`should_execute_range` oracle (all partitioners): no null `m_left_sum` / `*m_sum_slot` is dereferenced and the two
-children of a sum_node never get the same body (`err = false`), the user's body ends with the full reduction
-`[lo, …, hi-1]`, and the final-scan events, sorted by position, tile `[lo,hi)` exactly once, each starting from
-the in-order reduction of everything to its left. -/
+range and every oracle, where an oracle fixes, per right child, (`stolen`) what `is_stolen(ed)` reports,
+(`early`) whether the child is run by its own spawning thread while its left sibling is still unfinished — a
+RE-ENTRANT body: a leaf body of the left subtree waits on a task_group or runs another parallel algorithm and the
+wait's dispatch loop pops the child from the local deque; the child is then not stolen, `m_left_sum` is still null
+and it runs before the rest of the left subtree — and (`exec`) what `should_execute_range` returns (all
+partitioners); virtual steals are computed by the model with the guard GENERATED from the source text of
+`start_scan::execute` (`Generated.C06.scanTreatAsStolen`): no null `m_left_sum` / `*m_sum_slot` is dereferenced, the two
+children of a sum_node never get the same body, no really stolen task reads `m_left_sum` (`err = false`), the
+user's body ends with the full reduction `[lo, …, hi-1]`, and the final-scan events, sorted by position, tile
+`[lo,hi)` exactly once, each starting from the in-order reduction of everything to its left.
+(With `treat_as_stolen` reduced to `m_is_right_child && is_stolen(ed)` the statement is false — an `early`
+right child would final-scan on its parent's body with the prefix of the parent's range start — and with the
+`is_stolen(ed)` disjunct dropped a stolen task reads `m_left_sum` while another thread may be writing it; in both
+cases `Scan.gen_tas` / `Scan.gen_no_race`, from which everything is proved, no longer hold.) -/
 theorem scan_final_once_with_prefix (g : Nat) (hg : 1 ≤ g) (o : Scan.Oracle) (lo hi : Nat) (hle : lo ≤ hi) :
     Scan.ScanOK lo hi (Scan.scan g o lo hi) :=
   Scan.scan_spec g hg o lo hi hle
@@ -248,5 +273,20 @@ example :
 
 example : Scan.ScanOK 0 4 (Scan.scan 1 (Scan.oracleOf [(2, 4), (1, 2)] [(2, 4)]) 0 4) :=
   scan_final_once_with_prefix 1 (by omega) _ 0 4 (by omega)
+
+/-! Non-vacuity of the re-entrant schedules: nothing is stolen, but the right children `[4,8)`, `[2,4)` and `[1,2)`
+are each popped and run by their owner inside the leaf body of `[0,1)` (innermost first is not required by the
+model): they are virtually stolen (null `m_left_sum`), pre-scan on fresh bodies before `[0,1)` is final-scanned,
+and pass 2 completes them with the right prefixes. -/
+example :
+    let c := Scan.scan 1 (Scan.oracleOf [] [] [(4, 8), (2, 4), (1, 2)]) 0 8
+    c.err = false ∧ c.val 0 = [0, 1, 2, 3, 4, 5, 6, 7] ∧
+    c.log.take 6 = [.split 1 0, .rjoin 1 0, .split 2 1, .pre 2 4 5, .pre 2 5 6, .split 3 1] ∧
+    (Scan.finals c.log).map (fun f => (f.1, f.2.1, f.2.2.length)) = [(0, 1, 0), (4, 8, 4), (2, 4, 2), (1, 2, 1)] := by decide
+
+/-- nothing stolen and no re-entrant body: the special case proved first (pass 1 does everything on `temp_body`) -/
+theorem scan_no_steal (g : Nat) (hg : 1 ≤ g) (o : Scan.Oracle) (_ho : ∀ lo hi, o.stolen lo hi = false ∧ o.early lo hi = false)
+    (lo hi : Nat) (hle : lo ≤ hi) : Scan.ScanOK lo hi (Scan.scan g o lo hi) :=
+  scan_final_once_with_prefix g hg o lo hi hle
 
 end TbbVerif.C06
